@@ -96,12 +96,21 @@ func (r *randReader) Read(p []byte) (int, error) {
 }
 
 // RandReader replaces crypto/rand.Reader in instrumented code: inside a
-// simulation the stream derives from the run's seed and the task id.
+// simulation the stream derives from the run's RandSeed (or Seed), the task's
+// key (a hash of its name for named tasks, so that the same logical task draws
+// the same stream in a serial and in a concurrent execution) and the number of
+// readers that task has obtained so far.
 func RandReader() io.Reader {
 	s := S
 	if s == nil || s.cur == nil {
 		return &randReader{r: splitmix{x: 0x1234567}}
 	}
+	t := s.cur
+	t.randReads++
 	s.probes["rand_reads"]++
-	return &randReader{r: splitmix{x: s.cfg.Seed*31 + uint64(s.cur.id)*977 + uint64(s.probes["rand_reads"])}}
+	seed := s.cfg.RandSeed
+	if seed == 0 {
+		seed = s.cfg.Seed
+	}
+	return &randReader{r: splitmix{x: seed*31 + t.key*977 + uint64(t.randReads)}}
 }
